@@ -37,6 +37,7 @@ package base
 //@   ensures  result.0 != nil && len(result.0.Fields) == alloc.nfields
 //@   ensures[fields-empty] forall i int :: 0 <= i && i < len(result.0.Fields) ==> len(result.0.Fields[i]) == 0
 //@   ensures  result.0.RawLength == 0 && timezero(result.0.Timestamp) && result.0._refCount == alloc.initialRefCount
+//@   ensures  result.0._backbuf != nil ==> exists k int :: 0 <= k && k < 32 && len(*result.0._backbuf) == util.pow2(k)
 //@   ensures[copy-of-input] len(result.1) == len(input) && writable(result.1) && forall i int :: 0 <= i && i < len(input) ==> result.1[i] == old(input[i])
 
 //@ func (alloc *LogAllocator) Release(record *LogRecord)
